@@ -155,7 +155,7 @@ def check(P, R):
     check_idx_pairing(P, R, 'C01.b')
 
     # ---- c
-    _, pushes = check_lookback(P, R, 'C01.c')
+    _, pushes = check_lookback(P, R, 'C01.c', what=('params',))
     # the literal-branch push is conditioned on the wildcard marker ending the index
     lit_push = [c for c in pushes if is_const(c.args[0].elts[-1], True)] if pushes else []
     ok = False
